@@ -34,7 +34,7 @@ def _drive_one(scn: Dict[str, Any]) -> Dict[str, Any]:
 def tla_cfg(c: Dict[str, Any]) -> Dict[str, Any]:
     return {"start": c["start"], "horizon": c["horizon"], "minute": c["minute"], "second": c["second"], "kicklat": c["kicklat"],
             "kickfail": [list(x) for x in c["kickfail"]],
-            "srcs": [{"lat": s["lat"], "pre": s["pre"], "post": s["post"], "removes": s["removes"], "fail": s["fail"],
+            "srcs": [{"lat": s["lat"], "pre": s["pre"], "post": s["post"], "removes": s["removes"], "fail": s["fail"], "future": s.get("future", False),
                       "sched": [{"sid": x["sid"], "kind": x["kind"], "mins": x["mins"], "T": x["T"], "cancel": x["cancel"]} for x in s["sched"]]}
                      for s in c["srcs"]]}
 
@@ -76,7 +76,11 @@ def gen_random(seed: int, n: int, long_p: float = 0.1) -> List[Dict[str, Any]]:
                 sid += 1
                 sched.append(_cron(sid, rng) if rng.random() < 0.45 else _once(sid, rng, start, horizon))
             npolls = horizon // MIN + 1
+            if rng.random() < 0.4 and len(sched) >= 2:
+                for x in sched:
+                    x["tn"] = 900 + len(srcs)          # all schedules of this source fire the same task, with different labels
             srcs.append({"lat": 0, "pre": rng.choice(["", "", "sync", "async"]), "post": rng.choice(["sync", "async"]),
+                         "future": rng.random() < 0.3,
                          "removes": True, "fail": sorted(rng.sample(range(1, npolls + 1), rng.randint(0, min(2, npolls)))) if rng.random() < 0.4 else [],
                          "sched": sched})
         kickfail = [[rng.randint(1, max(1, sid)), rng.randint(1, 2)] for _ in range(rng.randint(0, 2))] if rng.random() < 0.4 else []
@@ -140,15 +144,15 @@ def mc_cfgs(tier: str) -> List[Dict[str, Any]]:
     for st in starts:
         for T in Ts:
             cfgs.append({"start": st, "horizon": 3 * mnt + 2, "minute": mnt, "second": sec, "kicklat": 0, "kickfail": [],
-                         "srcs": [{"lat": 0, "pre": "", "post": "sync", "removes": True, "fail": [],
+                         "srcs": [{"lat": 0, "pre": "", "post": "sync", "removes": True, "fail": [], "future": False,
                                    "sched": [{"sid": 1, "kind": "once", "mins": [], "T": T, "cancel": False},
                                              {"sid": 2, "kind": "cron", "mins": [0, 2], "T": 0, "cancel": False}]}]})
     # faults and callbacks
     cfgs.append({"start": 1, "horizon": 3 * mnt + 2, "minute": mnt, "second": sec, "kicklat": 0, "kickfail": [[1, 1], [3, 2]],
-                 "srcs": [{"lat": 0, "pre": "async", "post": "async", "removes": True, "fail": [2],
+                 "srcs": [{"lat": 0, "pre": "async", "post": "async", "removes": True, "fail": [2], "future": True,
                            "sched": [{"sid": 1, "kind": "once", "mins": [], "T": 14, "cancel": False},
                                      {"sid": 2, "kind": "cron", "mins": [0, 1, 2, 3], "T": 0, "cancel": True}]},
-                          {"lat": 0, "pre": "sync", "post": "sync", "removes": True, "fail": [],
+                          {"lat": 0, "pre": "sync", "post": "sync", "removes": True, "fail": [], "future": False,
                            "sched": [{"sid": 3, "kind": "cron", "mins": [0, 1, 2], "T": 0, "cancel": False}]}]})
     return cfgs
 
